@@ -47,6 +47,11 @@ HAND = {
                           "RUN_CELLS\n -cells 2 7\nEND\nUSE solution 8\nUSE exchange 8\nREACTION 1\n NaCl 1\n 2 mmol\nSAVE solution 9\nEND\n",
     "c04_rates_incr": "RATES\n dec\n -start\n10 SAVE parm(1) * TOT(\"Na\") * TIME\n -end\nINCREMENTAL_REACTIONS true\nSELECTED_OUTPUT 1\n -reset false\n -time\n -step\n -totals Na\n -kinetic_reactants dec\nUSER_PUNCH 1\n -headings tt\n10 PUNCH TOTAL_TIME\n" + S1 +
                       "KINETICS 1\n dec\n -formula NaCl -1\n -m0 1\n -parms 1e-6\n -steps 100 200\nSAVE solution 2\nEND\nUSE solution 2\nUSE kinetics 1\nEND\nRUN_CELLS\n -cells 1\n -time_step 300\nEND\nKINETICS_MODIFY 1\n -component dec\n -d_params 2e-6\nEND\nRUN_CELLS\n -cells 1\n -time_step 300\nEND\n",
+    # the PUT/GET store is the memory through which BASIC programs hand values from one simulation to later ones (manual example 6 idiom)
+    "c04_put_get": "USER_PUNCH 1\n -headings ca_first ca_now n_calls diff\n10 IF EXISTS(1) = 0 THEN PUT(TOT(\"Ca\"), 1)\n20 IF EXISTS(2, 3) = 0 THEN PUT(0, 2, 3)\n30 PUT(GET(2, 3) + 1, 2, 3)\n"
+                   "40 PUNCH GET(1), TOT(\"Ca\"), GET(2, 3), TOT(\"Ca\") - GET(1)\nSELECTED_OUTPUT 1\n -reset false\n -user_punch true\n" + S1 + "END\n"
+                   "USE solution 1\nEQUILIBRIUM_PHASES 1\n Calcite 0 1\n CO2(g) -2 1\nSAVE solution 2\nEND\nUSE solution 2\nREACTION 1\n HCl 1\n 0.5 1 mmol\nSAVE solution 3\nEND\n"
+                   "USER_PRINT\n10 PRINT \"stored\", GET(1), GET(2, 3)\nUSE solution 3\nREACTION_TEMPERATURE 1\n 40\nEND\n",
     "c04_transport_params": "SOLUTION 0\n Na 1\n Cl 1\nSOLUTION 1-4\n K 1\n N(5) 1\nEXCHANGE 1-4\n X 0.001\n -equilibrate 1\nSELECTED_OUTPUT 1\n -reset false\n -distance\n -step\n -totals Na K\nTRANSPORT\n -cells 4\n -shifts 3\n -time_step 1000\n -lengths 4*0.02\n"
                             " -dispersivities 4*0.004\n -diffusion_coefficient 0.5e-9\n -punch_cells 2-4\n -punch_frequency 1\nEND\nTRANSPORT\n -shifts 2\nEND\nSOLUTION 0\n Ca 0.5\n Cl 1\nEND\nTRANSPORT\n -shifts 2\n -punch_cells 1 4\nEND\nADVECTION\n -cells 4\n -shifts 2\n -punch_cells 4\nEND\n",
     "c04_title_dump": "TITLE first title\n" + S1 + "GAS_PHASE 1\n -fixed_pressure\n -pressure 1\n -volume 1\n CO2(g) 0.01\n N2(g) 0.9\nSOLID_SOLUTIONS 1\n CaSr\n -comp Calcite 0.01\n -comp Strontianite 0.001\nSAVE solution 2\nSAVE gas_phase 2\nEND\nTITLE second\nUSE solution 2\nUSE gas_phase 2\nUSE solid_solutions 1\nREACTION 1\n SrCl2 1\n 0.1 0.2 mmol\nSAVE solid_solutions 2\nEND\nMIX 1\n 1 0.5\n 2 0.5\nSAVE solution 5\nEND\n",
